@@ -6,6 +6,7 @@ DESIGN.md 7.5; nothing from /verif's checks goes into a prompt."""
 import glob, json, os, re, subprocess, sys
 
 root, letters = sys.argv[1], sys.argv[2]
+only = set(sys.argv[3].split(",")) if len(sys.argv) > 3 else None
 a, b = letters.split(",")
 os.makedirs(root, exist_ok=True)
 props = {json.loads(l)["id"]: json.loads(l) for l in open("/verif/properties.jsonl")}
@@ -48,6 +49,8 @@ VARIES = (
     "columns; classes separated except for one pair exchanged by 1e-13; proportion subsamples as subjects; classes of 1e7 "
     "to 1e12 samples for every band function")
 for pid, p in props.items():
+    if only and pid not in only:
+        continue
     wt = f"{root}/{pid}"
     if not os.path.exists(wt):
         subprocess.run(["git", "-C", "/repo", "worktree", "add", "-q", "--detach", wt, "HEAD"], check=True)
@@ -59,7 +62,7 @@ for pid, p in props.items():
             prev.append(f"- {os.path.basename(d.rstrip('/'))}: {txt[:260]}")
     prevtxt = "\n".join(prev) if prev else "(none)"
     low = pid.lower()
-    txt = f"""You are helping to evaluate a verification effort for the Python library `score_analysis` (martinsbruveris/score-analysis: binary/multiclass classification metrics, threshold setting, EER, AUC, ROC curves, bootstrap confidence intervals). Your job is to act as a realistic source of *regressions*: produce TWO independent small changes to the library, each of which breaks the semantic property below while the library still imports and its existing test-suite still passes. This is a NINTH round. Eight earlier rounds produced the changes summarised at the end, and the verification effort caught all of them in the end; by now it varies {VARIES}. Find something it still does not look at. Take your time to read the code the property depends on line by line and look for an input condition *inside the stated domain* that none of the above would produce, an interaction between two functions, or a semantic slip (wrong one of two similar quantities, off-by-one in a rarely taken branch, a condition that is slightly too wide or too narrow) that only shows for a structured kind of input.
+    txt = f"""You are helping to evaluate a verification effort for the Python library `score_analysis` (martinsbruveris/score-analysis: binary/multiclass classification metrics, threshold setting, EER, AUC, ROC curves, bootstrap confidence intervals). Your job is to act as a realistic source of *regressions*: produce TWO independent small changes to the library, each of which breaks the semantic property below while the library still imports and its existing test-suite still passes. This is a TENTH round. Nine earlier rounds produced the changes summarised at the end, and the verification effort caught all of them in the end; by now it varies {VARIES}. Find something it still does not look at. Take your time to read the code the property depends on line by line and look for an input condition *inside the stated domain* that none of the above would produce, an interaction between two functions, or a semantic slip (wrong one of two similar quantities, off-by-one in a rarely taken branch, a condition that is slightly too wide or too narrow) that only shows for a structured kind of input.
 
 ## The property ({p['id']}: {p['title']})
 Statement: {p['statement']}
